@@ -211,7 +211,7 @@ func (g *Gen) Any(preferred int) *anypb.Any {
 }
 
 var Coverts = []string{"", ":80", "1.2.3.4:1234", "1.2.3.4", "[::1]:443", "[]:80", "127.0.0.1:0", "10.0.0.1:65536", "host:99999",
-	"1.2.3.4:http", "::ffff:1.2.3.4", "[::ffff:1.2.3.4]:80", "1.2.3.4:80:80", "\x00:1", "[fe80::1%eth0]:80", "256.1.1.1:x", ":"}
+	"1.2.3.4:http", "::ffff:1.2.3.4", "[::ffff:1.2.3.4]:80", "1.2.3.4:80:80", "\x00:x", "[fe80::1%eth0]:80", "256.1.1.1:x", ":"}
 
 func (g *Gen) C2S(transportBias int) *pb.ClientToStation {
 	c := &pb.ClientToStation{
